@@ -125,11 +125,15 @@ def ob_getrandstr(L, n):
                          {"module": "harness.c06", "func": "replay_getrandstr", "args": {"L": L, "n": n, "a": 0, "b": 1}})
     if L == 1 or n == 0:
         return ok("degenerate", paths=1, nontrivial=False)
-    if len(rng.calls) != 1 or rng.calls[0][0] != "randrange":
+    if len(rng.calls) != 1 or rng.calls[0][0] not in ("randrange", "randint"):
         return inconclusive("random source used in an unexpected way: %r" % [c[0] for c in rng.calls])
-    _, lo, hi, v = rng.calls[0]
-    if (lo, hi) != (0, L ** n):
-        return violation("getrandstr(L=%d,n=%d) draws from [%r,%r) instead of [0,%d)" % (L, n, lo, hi, L ** n),
+    kind, lo, hi, v = rng.calls[0]
+    if kind == "randint" and isinstance(hi, int):
+        hi = hi + 1                   # inclusive upper bound
+    if not (isinstance(lo, int) and isinstance(hi, int)) or hi - lo != L ** n:
+        # the number of equally likely outcomes of the source differs from the number of strings: cannot be uniform
+        return violation("getrandstr(L=%d,n=%d) draws one of %s equally likely values (%s(%r, %r)) for %d possible strings" %
+                         (L, n, (hi - lo) if isinstance(hi, int) and isinstance(lo, int) else "?", kind, rng.calls[0][1], rng.calls[0][2], L ** n),
                          "getrandstr:range",
                          {"module": "harness.c06", "func": "replay_getrandstr_range", "args": {"L": L, "n": n}})
     digs = [ZInt.lift(d) for d in out]
@@ -169,10 +173,31 @@ def replay_getrandstr(L, n, a, b):
 
 
 def replay_getrandstr_range(L, n):
+    """how many equally likely outcomes does the real helper ask its random source for?"""
     from passlib.utils import getrandstr
-    r = _FixedRng(0)
+
+    class Rec:
+        def __init__(self):
+            self.size = None
+
+        def randrange(self, lo, hi=None):
+            lo, hi = (0, lo) if hi is None else (lo, hi)
+            self.size = hi - lo
+            return lo
+
+        def randint(self, lo, hi):
+            self.size = hi - lo + 1
+            return lo
+
+        def getrandbits(self, k):
+            self.size = 1 << k
+            return 0
+    r = Rec()
     getrandstr(r, bytes(range(33, 33 + L)), n)
-    return r.args != (0, L ** n) and "range %r" % (r.args,)
+    if r.size != L ** n:
+        return "getrandstr over %d symbols, length %d, draws one of %r equally likely values for %d possible strings: not uniform" % (
+            L, n, r.size, L ** n)
+    return False
 
 
 class ForkStr(str):
